@@ -241,7 +241,7 @@ func (h *H) onStart(w *W, jr *JobRec, s int) {
 	// C04 (concurrency 1, priority queue): at this job's dequeue no fully accepted, still pending job of the same
 	// queue had a smaller (priority, acceptance) key. The dequeue cannot lie before t: the end of the previous job
 	// of this worker (limit 1), this job's own Add call, or the Resume that followed a pause with nothing started since.
-	if jr.Q != nil && jr.Q.Kind.IsPrio() && len(w.Qs) == 1 && jr.Accepted && w.maxLimitEver() == 1 && len(jr.Starts) == 1 {
+	if jr.Q != nil && jr.Q.Kind.IsPrio() && len(w.Qs) == 1 && len(h.Ws) == 1 && jr.Accepted && w.maxLimitEver() == 1 && len(jr.Starts) == 1 {
 		t := jr.AddCall
 		for _, o := range h.Jobs {
 			for k, e := range o.Ends {
@@ -276,7 +276,7 @@ func (h *H) onStart(w *W, jr *JobRec, s int) {
 		}
 	}
 	// C04 (concurrency 1, FIFO): a job whose Add returned before this job's Add was called must have started first
-	if jr.Q != nil && !jr.Q.Kind.IsPrio() && len(w.Qs) == 1 && jr.Accepted {
+	if jr.Q != nil && !jr.Q.Kind.IsPrio() && len(w.Qs) == 1 && len(h.Ws) == 1 && jr.Accepted {
 		for _, o := range h.Jobs {
 			if o == jr || o.Q != jr.Q || !o.Accepted || o.AddRet >= jr.AddCall || o.AddRet == 0 {
 				continue
@@ -316,10 +316,8 @@ func (h *H) monitor() {
 		}
 		if np, ok := h.rawGet(w.Wk.NumPending); ok {
 			ub := started
-			for _, q := range w.Qs {
-				if q.Ad != nil {
-					ub += q.Ad.nseq // everything ever placed on the shared adapter
-				}
+			for _, a := range h.Adapters {
+				ub += a.nseq // everything ever placed on an adapter (it may be bound to this worker, or about to be)
 			}
 			if np < 0 {
 				h.viol("C17", "C17.pending-negative", "worker NumPending() < 0")
@@ -331,8 +329,11 @@ func (h *H) monitor() {
 			if proc < 0 || proc > w.maxLimitEver() {
 				h.viol("C17", "C17.processing-over", fmt.Sprintf("NumProcessing()=%d, largest limit configured %d", proc, w.maxLimitEver()))
 			}
-			for k := w.lastProc; k < proc; k++ {
-				w.Disp = append(w.Disp, h.seq)
+			// (a counter that has wrapped around reads as billions: it is reported above, not iterated over)
+			if proc-w.lastProc < 1<<12 {
+				for k := w.lastProc; k < proc; k++ {
+					w.Disp = append(w.Disp, h.seq)
+				}
 			}
 			w.lastProc = proc
 		}
@@ -452,6 +453,28 @@ func (h *H) sampleQuiet() {
 		if w.Inflight == 0 && !h.anyCallInProgress() {
 			if n := w.Wk.NumIdleWorkers(); n < 1 {
 				h.viol("C18", "C18.idle-min", "a running worker keeps no idle worker at rest")
+			}
+		}
+		// C04 (concurrency n): at rest with the gates closed the started jobs form a prefix of the queue's order —
+		// no job waits while a job that entered the queue after it (or, on a priority queue, ranks behind it) has started.
+		// Only pairs whose submissions did not overlap are compared.
+		if h.Shape == Gated && !q.GatesOpen && len(h.Ws) == 1 && len(w.Qs) == 1 && !w.Qs[0].Kind.IsAdapter() {
+			for _, x := range h.Jobs {
+				if x.W != w || len(x.Starts) == 0 || !x.Accepted {
+					continue
+				}
+				for _, y := range h.Jobs {
+					if y.W != w || y == x || len(y.Starts) > 0 || !h.sureRunnable(y) || y.AddRet >= x.AddCall {
+						continue
+					}
+					if (y.Batch != nil && !h.batchSure(y)) || (x.Batch != nil && x.Batch == y.Batch) {
+						continue
+					}
+					before := !w.Qs[0].Kind.IsPrio() || y.Prio <= x.Prio
+					if before {
+						h.viol("C04", "C04.prefix", "a job is still waiting while a job that ranks behind it in the queue's order has been started")
+					}
+				}
 			}
 		}
 		if h.Shape == Gated && !q.GatesOpen && len(h.Ws) == 1 {
@@ -995,8 +1018,8 @@ func (h *H) judgeAdapters(crashed bool) {
 							}
 						}
 					}
-					if !ended && !h.adapterSkip(d.Data) {
-						h.viol("C11", "C11.ack-before-end", "a delivery was acknowledged before the worker function returned for it")
+					if !ended {
+						h.viol("C11", "C11.ack-before-end", "a delivery was acknowledged before the worker function returned for it (or without ever being processed)")
 					}
 				}
 			}
